@@ -2,6 +2,7 @@ import LdkModel.Driver.Util
 import LdkModel.Model.Restart
 import LdkModel.Model.Reconstruct
 import LdkModel.Model.EventReplay
+import LdkModel.Model.InterceptRegen
 namespace Ldk.Driver
 open Ldk.Restart
 
@@ -105,7 +106,26 @@ def showE (s : ESt) : String :=
   let b (x : Bool) : String := if x then "1" else "0"
   s!"part={b s.live.part} queue={if s.live.queue.isEmpty then "-" else ",".intercalate (s.live.queue.map showQEv)} resolved={b s.resolved} handledT={b s.handledTerminal}"
 
+/-! re-delivery of Event::HTLCIntercepted (Model/InterceptRegen.lean) -/
+def optNat (s : String) : Option Nat := if s == "-" then none else some (nat! s)
+def parseIOp (s : String) : Option IOp :=
+  if s == "p" then some .persist else if s == "c" then some .crash
+  else if s.startsWith "h" then some (.handle (nat! (s.drop 1).toString))
+  else if s.startsWith "r" then some (.resolve (nat! (s.drop 1).toString))
+  else if s.startsWith "i" then
+    match (s.drop 1).toString.splitOn ":" with
+    | [id, hash, ia, oa, cltv, scid] => some (.intercept (nat! id) ⟨nat! hash, optNat ia, nat! oa, nat! cltv, optNat scid⟩)
+    | _ => none
+  else none
+def showIcEv (e : IcEv) : String :=
+  s!"{e.interceptId}/{e.requestedNextHopScid}/{e.paymentHash}/{e.inboundAmountMsat}/{e.expectedOutboundAmountMsat}/{match e.outgoingHtlcExpiry with | some x => toString x | none => "-"}"
+def showI (s : ISt) : String :=
+  s!"held={joinOr ((heldIds s.live).map toString)} queue={joinOr (s.live.queue.map showIcEv)} told={joinOr (s.told.map toString)}"
+
 /-- c10.  ops:
+      icpt (i<id>:<hash>:<incoming amt|->:<outgoing amt>:<outgoing cltv>:<forward scid|-> | h<k> | r<id> | p | c)*  → `held=<ids> queue=<id/scid/hash/in/out/expiry,..> told=<ids>` (sorted)
+          (Restart.irun: intercepted HTLCs held by a forwarding node; i = intercepted, h = handler accepts k HTLCIntercepted events, r = forwarded / failed by the application,
+           p = manager written, c = crash + restart on the production reload path)
       evlife (close | timeout | h<k> | persist | crash)*  → `part=0/1 queue=<P|F[*],..> resolved=0/1 handledT=0/1`
           (Restart.erun failHtlcPushes: one single-part payment over a channel that is closed on chain; P = PaymentPathFailed, F = PaymentFailed,
            * = carries the ReleasePaymentComplete completion action)
@@ -138,6 +158,10 @@ def c10 : Drv where
         match reloadNode wl with
         | none => (sts, "err")
         | some rs => (sts, "ok " ++ " ".intercalate (rs.map showOutcome))
+      | none => (sts, "bad-op")
+    | "icpt" :: rest =>
+      match rest.mapM parseIOp with
+      | some ops => (sts, showI (irun ops))
       | none => (sts, "bad-op")
     | "evlife" :: rest =>
       match rest.mapM parseEOp with
